@@ -126,7 +126,9 @@ def compare(plain, wrapped, nvals, rng):
     holes = []
     for v in sub_values[:4]:
         holes += placeholder_variants(v)
-    for v in sub_values + holes[: (12 if nvals else 60)]:
+    nan = float("nan")
+    odd = [nan, [nan], {"a": nan}, float("inf"), [1, nan]]        # values a result cannot be re-validated against
+    for v in sub_values + holes[: (12 if nvals else 60)] + odd:
         rec = {"exc_w": "", "exc_p": "", "res_same": False, "repr_same": False}
         rp = rw = None
         try:
